@@ -265,8 +265,24 @@ func c12Add(idx int, bs, lats []int64, class string) Case {
 			for i, b := range bs {
 				parts[i] = fmt.Sprintf("%dns", b)
 			}
-			out, err := runCLI(nil, "report", "-type", "json", "-buckets", "["+strings.Join(parts, ",")+"]", f)
-			if err == nil {
+			spec := "[" + strings.Join(parts, ",") + "]"
+			if idx%2 == 0 {
+				// the specification embedded in the report type, counts read from the text rendering
+				if out, err := runCLI(nil, "report", "-type", "hist"+spec, f); err == nil {
+					var got []uint64
+					for _, line := range strings.Split(string(out), "\n") {
+						fl := strings.Fields(line)
+						if len(fl) >= 4 && strings.HasPrefix(fl[0], "[") {
+							if n, e := strconv.ParseUint(fl[2], 10, 64); e == nil {
+								got = append(got, n)
+							}
+						}
+					}
+					counts3, viaCLI = got, true
+				}
+			}
+			out, err := runCLI(nil, "report", "-type", "json", "-buckets", spec, f)
+			if err == nil && !viaCLI {
 				var rep struct {
 					Buckets json.RawMessage `json:"buckets"`
 				}
